@@ -13,6 +13,11 @@ use xml_schema_generator::{extend_struct, into_struct, Element, Options, ParserE
 #[derive(Clone, Copy, Debug, PartialEq)]
 pub struct RCfg {
     pub trim_text: bool,
+    /// Config::trim_text_end alone (trim_text sets both ends): white-space-only character data
+    /// then arrives as an *empty* Text event instead of disappearing
+    pub trim_end: bool,
+    /// Config::trim_text_start alone
+    pub trim_start: bool,
     pub expand_empty: bool,
     pub check_end_names: bool,
     /// 0 = read from the byte slice directly, n>0 = BufReader::with_capacity(n)
@@ -56,15 +61,21 @@ fn failing<'a>(bytes: &'a [u8], cfg: &RCfg) -> std::io::BufReader<FailingRead<'a
 }
 impl RCfg {
     pub fn default() -> RCfg {
-        RCfg { trim_text: false, expand_empty: false, check_end_names: true, bufcap: 0, allow_unmatched_ends: false, skip_events: 0, fail_after: 0 }
+        RCfg { trim_text: false, trim_end: false, trim_start: false, expand_empty: false, check_end_names: true, bufcap: 0, allow_unmatched_ends: false, skip_events: 0, fail_after: 0 }
     }
     pub fn json(&self) -> J {
-        json::obj(vec![("trim_text", J::B(self.trim_text)), ("expand_empty_elements", J::B(self.expand_empty)), ("check_end_names", J::B(self.check_end_names)), ("bufreader_capacity", J::N(self.bufcap as i64)), ("allow_unmatched_ends", J::B(self.allow_unmatched_ends)), ("events_read_by_caller_first", J::N(self.skip_events as i64)), ("read_fails_after_bytes", J::N(self.fail_after as i64))])
+        json::obj(vec![("trim_text", J::B(self.trim_text)), ("trim_text_end_only", J::B(self.trim_end)), ("trim_text_start_only", J::B(self.trim_start)), ("expand_empty_elements", J::B(self.expand_empty)), ("check_end_names", J::B(self.check_end_names)), ("bufreader_capacity", J::N(self.bufcap as i64)), ("allow_unmatched_ends", J::B(self.allow_unmatched_ends)), ("events_read_by_caller_first", J::N(self.skip_events as i64)), ("read_fails_after_bytes", J::N(self.fail_after as i64))])
     }
 }
 fn configure<R>(r: &mut Reader<R>, c: &RCfg) {
     let cfg = r.config_mut();
     cfg.trim_text(c.trim_text);
+    if c.trim_end {
+        cfg.trim_text_end = true;
+    }
+    if c.trim_start {
+        cfg.trim_text_start = true;
+    }
     cfg.expand_empty_elements = c.expand_empty;
     cfg.check_end_names = c.check_end_names;
     cfg.allow_unmatched_ends = c.allow_unmatched_ends;
